@@ -104,9 +104,10 @@ fn log_rule_update(map: &RuleMap) {
 pub fn append_rule(rule: Arc<Rule>) -> bool {
     #[cfg(flea1lt_sentinel_rust_verif)]
     crate::verif::sched::point("lk:hotspot.RULE_MAP:lock");
-    if RULE_MAP
-        .lock()
-        .unwrap()
+    // the rule map stays locked from the membership test to the rebuild, as in `load_rules`:
+    // a concurrent clear or load must not slip in between the insert and the rebuild
+    let mut rule_map = RULE_MAP.lock().unwrap();
+    if rule_map
         .get(&rule.resource)
         .unwrap_or(&HashSet::new())
         .contains(&rule)
@@ -117,9 +118,7 @@ pub fn append_rule(rule: Arc<Rule>) -> bool {
         Ok(_) => {
             #[cfg(flea1lt_sentinel_rust_verif)]
             crate::verif::sched::point("lk:hotspot.RULE_MAP:lock");
-            RULE_MAP
-                .lock()
-                .unwrap()
+            rule_map
                 .entry(rule.resource.clone())
                 .or_default()
                 .insert(Arc::clone(&rule));
@@ -137,7 +136,6 @@ pub fn append_rule(rule: Arc<Rule>) -> bool {
     let mut placeholder = Vec::new();
     #[cfg(flea1lt_sentinel_rust_verif)]
     crate::verif::sched::point("lk:hotspot.RULE_MAP:lock");
-    let rule_map = RULE_MAP.lock().unwrap();
     #[cfg(flea1lt_sentinel_rust_verif)]
     crate::verif::sched::point("lk:hotspot.CONTROLLER_MAP:write");
     let mut controller_map = CONTROLLER_MAP.write().unwrap();
